@@ -170,3 +170,93 @@ m('rx-adapter-push-recursion (revert fix)', ['C20', 'C12'], 'rsocket/rx_support/
   "        await self.delegate.on_metadata_push(metadata)", "        await self.on_metadata_push(metadata)")
 m('rx-dispose-does-not-cancel', ['C20'], 'rsocket/rx_support/from_rsocket_publisher.py',
   "    except CancelledError:\n        if not subscriber.done.is_set():\n            subscriber.subscription.cancel()", "    except CancelledError:\n        pass")
+
+
+# ---------------------------------------------------------------------------
+# second batch: subtler slips
+m('frag-next-header-budget-for-first', ['C03'], 'rsocket/frame_fragmenter.py',
+  "        expected_data_fragment_length = self._get_next_fragment_body_size() - len(last_metadata_fragment)",
+  "        expected_data_fragment_length = self.next_frame_header_size - len(last_metadata_fragment)")
+m('frag-last-detection-empty-data', ['C03'], 'rsocket/frame_fragmenter.py',
+  "                is_last = self._data_length == 0 and self._metadata_read_length == self._metadata_length",
+  "                is_last = self._metadata_read_length == self._metadata_length")
+m('cache-merge-order-data-before-metadata', ['C03', 'C01'], 'rsocket/frame_fragment_cache.py',
+  "            current_frame_from_fragments.data += next_fragment.data", "            current_frame_from_fragments.data = next_fragment.data + current_frame_from_fragments.data if len(next_fragment.data) == 1 else current_frame_from_fragments.data + next_fragment.data")
+m('parser-exact-length-boundary', ['C04'], 'rsocket/frame_parser.py',
+  "            if total < length + frame_length_byte_count:\n                return", "            if total <= length + frame_length_byte_count and length > 40:\n                return")
+m('tcp-read-none-on-short-read', ['C04', 'C01'], 'rsocket/transports/tcp.py',
+  "            if not data:\n                self._writer.close()\n                return", "            if not data or (len(data) == 1 and data == b'\\x00' and self._read_buffer_size > 64):\n                self._writer.close()\n                return")
+m('requeue-only-when-next-is-same-stream', ['C05'], 'rsocket/rsocket_base.py',
+  "            if item.stream_id == frame_source.stream_id:\n                position = index\n                break",
+  "            if item.stream_id == frame_source.stream_id and index == 0:\n                position = index\n                break")
+m('send-complete-before-last-element-async-gen', ['C06', 'C01'], 'rsocket/streams/stream_from_async_generator.py',
+  "                is_complete_sent = next_value[1]\n                yield next_value", "                is_complete_sent = next_value[1]\n                yield next_value\n                if i == n - 1 and n > 6:\n                    return")
+m('credit-queue-drained-twice', ['C06'], 'rsocket/streams/stream_from_generator.py',
+  "                n = await self._request_n_queue.get()\n", "                n = await self._request_n_queue.get()\n                if n == 7:\n                    n = 8\n")
+m('rx-backpressure-feedback-off', ['C06', 'C20'], 'rsocket/reactivex/back_pressure_publisher.py',
+  "    def request(self, n: int):\n        self._feedback.on_next(n)", "    def request(self, n: int):\n        self._feedback.on_next(n if n != 3 else 4)")
+m('stream-requester-error-does-not-finish', ['C10'], 'rsocket/handlers/request_stream_requester.py',
+  "            self._subscriber.on_error(error_frame_to_exception(frame))\n            self._finish_stream()",
+  "            self._subscriber.on_error(error_frame_to_exception(frame))\n            if frame.error_code != 0x201:\n                self._finish_stream()")
+m('rr-requester-error-does-not-finish', ['C10'], 'rsocket/handlers/request_response_requester.py',
+  "            self._future.set_exception(error_frame_to_exception(frame))\n            self._finish_stream()",
+  "            self._future.set_exception(error_frame_to_exception(frame))")
+m('responder-stream-flag-complete-not-finished', ['C10'], 'rsocket/handlers/request_stream_responder.py',
+  "        if is_complete:\n            self.socket.finish_stream(self.stream_id)", "        if is_complete and value.data:\n            self.socket.finish_stream(self.stream_id)")
+m('double-on-complete-stream', ['C07'], 'rsocket/handlers/request_stream_requester.py',
+  "            elif frame.flags_complete:\n                self._subscriber.on_complete()\n\n            if frame.flags_complete:\n                self._finish_stream()",
+  "            if frame.flags_complete:\n                self._subscriber.on_complete()\n                self._finish_stream()")
+m('channel-complete-twice-on-request-flag', ['C07'], 'rsocket/handlers/request_cahnnel_responder.py',
+  "            if frame.flags_complete:\n                self._complete_remote_subscriber()", "            if frame.flags_complete or frame.initial_request_n == 0x7FFFFFFF:\n                self._complete_remote_subscriber()")
+m('cancel-sent-by-stream-responder-on-error', ['C08'], 'rsocket/handlers/request_stream_responder.py',
+  "    def on_error(self, exception: Exception):\n        self.socket.send_error(self.stream_id, exception)", "    def on_error(self, exception: Exception):\n        self.socket.send_error(self.stream_id, exception)\n        self.socket.send_complete(self.stream_id)")
+m('payload-after-complete-flag', ['C08'], 'rsocket/handlers/request_stream_responder.py',
+  "        if is_complete:\n            self.socket.finish_stream(self.stream_id)", "        if is_complete:\n            self.socket.finish_stream(self.stream_id)\n            if value.metadata:\n                self.socket.send_complete(self.stream_id)")
+m('keepalive-on-nonzero-stream', ['C08', 'C15'], 'rsocket/frame_builders.py',
+  "    frame = KeepAliveFrame()\n    frame.flags_respond = True", "    frame = KeepAliveFrame()\n    frame.stream_id = 0 if not data else 1\n    frame.flags_respond = True")
+m('cancel-twice-channel (revert fix)', ['C09'], 'rsocket/handlers/request_cahnnel_common.py',
+  "        if self._received_complete:\n            return  # already cancelled, completed or failed: a repeated or late cancel() sends nothing\n\n", "")
+m('async-gen-not-closed-on-cancel', ['C09'], 'rsocket/streams/stream_from_async_generator.py',
+  "    def _cancel_generator(self):\n        asyncio.create_task(self._generator.aclose())", "    def _cancel_generator(self):\n        pass")
+m('keepalive-task-survives-close', ['C11'], 'rsocket/rsocket_client.py',
+  "    async def _finally_sender(self):\n        await cancel_if_task_exists(self._keepalive_task)", "    async def _finally_sender(self):\n        pass")
+m('close-does-not-fail-rr', ['C11'], 'rsocket/handlers/request_response_requester.py',
+  "        elif isinstance(frame, ErrorFrame):\n            self._future.set_exception(error_frame_to_exception(frame))",
+  "        elif isinstance(frame, ErrorFrame) and (frame.error_code != 0x101 or self.stream_id % 8 != 5):\n            self._future.set_exception(error_frame_to_exception(frame))")
+m('protocol-error-closes-connection', ['C12'], 'rsocket/rsocket_base.py',
+  "                except RSocketProtocolError as exception:\n                    logger().error('%s: Protocol error %s', self._log_identifier(), str(exception))\n                    self.send_error(frame.stream_id, exception)",
+  "                except RSocketProtocolError as exception:\n                    logger().error('%s: Protocol error %s', self._log_identifier(), str(exception))\n                    self.send_error(frame.stream_id, exception)\n                    if exception.error_code == ErrorCode.REJECTED_RESUME:\n                        raise RSocketTransportError()")
+m('fragment-type-mismatch-escapes', ['C12'], 'rsocket/rsocket_base.py',
+  "                except Exception as exception:\n                    logger().error('%s: Unknown error', self._log_identifier(), exc_info=True)\n                    self.send_error(frame.stream_id, exception)",
+  "                except RSocketFrameFragmentDifferentTypeX as exception:\n                    logger().error('%s: Unknown error', self._log_identifier(), exc_info=True)\n                    self.send_error(frame.stream_id, exception)")
+m('lease-not-reset-by-new-lease', ['C14'], 'rsocket/rsocket_base.py',
+  "        self._requester_lease = DefinedLease(\n            frame.number_of_requests,\n            timedelta(milliseconds=frame.time_to_live)\n        )",
+  "        if frame.number_of_requests > 0 or not isinstance(self._requester_lease, DefinedLease):\n            self._requester_lease = DefinedLease(\n                frame.number_of_requests,\n                timedelta(milliseconds=frame.time_to_live)\n            )")
+m('lease-responder-announces-seconds', ['C14'], 'rsocket/lease.py',
+  "        frame.time_to_live = to_milliseconds(self.maximum_lease_time)", "        frame.time_to_live = int(self.maximum_lease_time.total_seconds()) * 1000")
+m('keepalive-period-from-lifetime', ['C15'], 'rsocket/rsocket_client.py',
+  "                await asyncio.sleep(self._keep_alive_period.total_seconds())\n                self._send_new_keepalive()", "                await asyncio.sleep(min(self._keep_alive_period, self._max_lifetime_period).total_seconds())\n                self._send_new_keepalive()")
+m('setup-version-minor', ['C16'], 'rsocket/frame.py',
+  "PROTOCOL_MINOR_VERSION = 0", "PROTOCOL_MINOR_VERSION = 1")
+m('setup-mime-swapped', ['C16'], 'rsocket/frame_builders.py',
+  "    setup.data_encoding = data_encoding\n    setup.metadata_encoding = metadata_encoding", "    setup.data_encoding = data_encoding if len(data_encoding) < 40 else metadata_encoding\n    setup.metadata_encoding = metadata_encoding")
+m('reconnect-stream-ids-not-reset', ['C17'], 'rsocket/rsocket_base.py',
+  "        self._stream_control = StreamControl(self._get_first_stream_id())\n        self._is_closing = False",
+  "        if getattr(self, '_stream_control', None) is None:\n            self._stream_control = StreamControl(self._get_first_stream_id())\n        self._is_closing = False")
+m('reconnect-old-transport-not-closed', ['C17'], 'rsocket/rsocket_client.py',
+  "        await super().close()\n", "        if not reconnect:\n            await super().close()\n        else:\n            await self._stop_tasks()\n")
+m('composite-length-24bit-truncated', ['C18'], 'rsocket/extensions/composite_metadata.py',
+  "            item_serialized += pack_24bit_length(item_metadata)", "            item_serialized += pack_24bit_length(item_metadata[:65535])")
+m('auth-bearer-parse-drops-last-byte', ['C18'], 'rsocket/extensions/authentication.py',
+  "    def parse(self, buffer: bytes):\n        self.token = buffer", "    def parse(self, buffer: bytes):\n        self.token = buffer[:65535]")
+m('route-param-named-payload-gets-metadata', ['C19'], 'rsocket/routing/request_router.py',
+  "            if 'composite_metadata' == parameter or parameter_type.annotation is CompositeMetadata:", "            if 'composite_metadata' == parameter or parameter_type.annotation is CompositeMetadata or parameter == 'p':")
+m('verifier-after-routing', ['C19'], 'rsocket/routing/routing_request_handler.py',
+  "        await self._verify_authentication(route, composite_metadata)\n        return await self.router.route(frame_type, route, payload, composite_metadata)",
+  "        result = await self.router.route(frame_type, route, payload, composite_metadata)\n        await self._verify_authentication(route, composite_metadata)\n        return result")
+m('rx3-client-limit-ignored', ['C20'], 'rsocket/rx_support/rx_rsocket.py',
+  "        response_publisher = self._rsocket.request_stream(request).initial_request_n(request_limit)\n        return from_rsocket_publisher(response_publisher, request_limit)",
+  "        response_publisher = self._rsocket.request_stream(request).initial_request_n(request_limit)\n        return from_rsocket_publisher(response_publisher, max(request_limit, 2))")
+m('rx4-empty-observable-completion-swallowed', ['C20'], 'rsocket/reactivex/back_pressure_publisher.py',
+  "                        elif isinstance(event, OnCompleted):\n                            observer.on_completed()\n                            return",
+  "                        elif isinstance(event, OnCompleted):\n                            if i > 0 or next_n > 1:\n                                observer.on_completed()\n                            return")
